@@ -183,3 +183,12 @@ pub fn scale_days() -> Vec<i64> {
     v.sort(); v.dedup();
     v
 }
+
+/// Sub-second values whose three digit groups (milli-, micro-, nanoseconds) each take the values that alias 0 in a narrower integer
+/// (256, 512, 768 in 8 bits) or sit at the ends of the group: a writer that decides its precision group by group goes wrong on exactly one of these.
+pub fn fraction_groups() -> Vec<u32> {
+    let g = [0u32, 1, 256, 512, 768, 999];
+    let mut v = Vec::new();
+    for a in g { for b in g { for c in g { v.push(a * 1_000_000 + b * 1_000 + c); } } }
+    v
+}
